@@ -114,8 +114,8 @@ def p5_shape_change(prog):
                         break
                     okv = True
                     for x in (0x00, 0xFF, 0xA5, 0x5A, 0x80, 0x01):
-                        if name == 'remove' and not (x >> (bit % 8)) & 1:
-                            continue      # the bit is known to be set on this path
+                        if (name == 'remove') != bool((x >> (bit % 8)) & 1):
+                            continue      # the bit is known to be set (remove) / clear (add) on the moving path
                         got = pathsem.evaluate(fl['value'], leaf_for(L, I, lambda t, x=x: x if (t == oldbyte or S(t) == S(oldbyte)) else None))
                         want = (x | (1 << (bit % 8))) if name == 'add' else (x & ~(1 << (bit % 8)) & 0xFF)
                         if got != want:
